@@ -206,6 +206,10 @@ C13Cfg(pa, ta, na, pb, tb) == [modes |-> << Mode(na, pa, ta), Mode("B", pb, tb) 
 C13Base == C13Cfg(C13BasePatsA, << <<3, 1>> >>, "A", C13BasePatsB, << <<3, 0>> >>)
 U_C13 == TLCEval(<<
   C13Base,
+  \* a mode without patterns in the middle (modes behind it are referred to by index)
+  [modes |-> << Mode("A", C13BasePatsA, << <<3, 2>> >>), Mode("E", <<>>, <<>>), Mode("B", C13BasePatsB, << <<3, 0>> >>) >>],
+  \* the same regex listed twice in a mode, the first copy with a lookahead (the second is its fallback)
+  C13Cfg(<< PatLa(A1, 1, PosLa(A2)), Pat(A1, 8), Pat(Cat(A1, A2), 2), Pat(A2, 3) >>, << <<3, 1>> >>, "A", C13BasePatsB, << <<3, 0>> >>),
   \* a token type changed
   C13Cfg(<< Pat(A1, 8), Pat(Cat(A1, A2), 2), Pat(A2, 3), Pat(A12, 4) >>, << <<3, 1>> >>, "A", C13BasePatsB, << <<3, 0>> >>),
   \* two patterns swapped (priority)
